@@ -102,6 +102,18 @@ public:
         return vegas_refine_pdf(results.back().pdf(), alpha_, results.back().adjustment_data());
     }
 
+    void rollback(std::size_t iteration) override
+    {
+        // the first pdf is only kept (and serialized) while there are no results; if the checkpoint
+        // was read from a stream get it back from the first result
+        if ((iteration == 0) && pdf_.empty() && !this->results().empty())
+        {
+            pdf_.push_back(this->results().front().pdf());
+        }
+
+        chkpt<vegas_result<T>>::rollback(iteration);
+    }
+
     void serialize(std::ostream& out) const override
     {
         chkpt<vegas_result<T>>::serialize(out);
